@@ -2526,8 +2526,14 @@ static Node *cast(Token **rest, Token *tok) {
 //       | "&&" ident
 //       | postfix
 static Node *unary(Token **rest, Token *tok) {
-  if (equal(tok, "+"))
-    return cast(rest, tok->next);
+  if (equal(tok, "+")) {
+    // Unary plus performs the integer promotions on its operand.
+    Node *node = cast(rest, tok->next);
+    add_type(node);
+    if (is_integer(node->ty) && node->ty->size < 4)
+      return new_cast(node, ty_int);
+    return node;
+  }
 
   if (equal(tok, "-"))
     return new_unary(ND_NEG, cast(rest, tok->next), tok);
